@@ -5,11 +5,11 @@ pub struct RId { _p: u8 }
 
 /// One observable step of rendering, at the nesting level of the function under contract:
 ///   Write(fmt)  - one `write!(writer, fmt, ..)` accepted by the sink (the formatted bytes are abstracted to the format string)
-///   Child(id)   - one complete, successful `render_to` of the child node `id` (whatever it wrote)
-///   Partial(id) - a child `render_to` that returned Err after writing a (possibly empty) prefix of its output
+///   Child(id, rt)   - one complete, successful `render_to` of the child node `id` in the runtime (scope) `rt` (whatever it wrote)
+///   Partial(id, rt) - a child `render_to` that returned Err after writing a (possibly empty) prefix of its output
 ///   Raw(n)      - a direct `io::Write::write` call that accepted n bytes of what it was offered (possibly fewer than all)
 ///   RawAll      - a direct `write_all` call that was accepted completely
-pub enum Ev { Write(Seq<char>), Child(RId), Partial(RId), Raw(nat), RawAll(Seq<u8>) }
+pub enum Ev { Write(Seq<char>), Child(RId, RtId), Partial(RId, RtId), Raw(nat), RawAll(Seq<u8>) }
 
 /// Ghost model of `&mut dyn io::Write`: `log` = events accepted so far, `failed` = a write has failed.
 pub struct Sink { pub log: Ghost<Seq<Ev>>, pub failed: Ghost<bool> }
@@ -91,14 +91,14 @@ pub trait Renderable {
     fn render_to(&self, writer: &mut Sink, runtime: &dyn Runtime) -> (r: Result<()>)
         requires !old(writer).failed@,                                                               // [C10:no_write_after_failure]
         ensures
-            r is Ok ==> !final(writer).failed@ && final(writer).log@ == old(writer).log@.push(Ev::Child(self.rid())),
-            r is Err ==> (final(writer).log@ == old(writer).log@ || final(writer).log@ == old(writer).log@.push(Ev::Partial(self.rid()))),
+            r is Ok ==> !final(writer).failed@ && final(writer).log@ == old(writer).log@.push(Ev::Child(self.rid(), runtime.ident())),
+            r is Err ==> (final(writer).log@ == old(writer).log@ || final(writer).log@ == old(writer).log@.push(Ev::Partial(self.rid(), runtime.ident()))),
             final(writer).failed@ ==> r is Err;
 }
 /// the same contract written as a predicate, for the concrete node types
-pub open spec fn renders_as_child(id: RId, pre: Sink, post: Sink, r: Result<()>) -> bool {
-    &&& (r is Ok ==> !post.failed@ && post.log@ == pre.log@.push(Ev::Child(id)))
-    &&& (r is Err ==> (post.log@ == pre.log@ || post.log@ == pre.log@.push(Ev::Partial(id))))
+pub open spec fn renders_as_child(id: RId, rt: RtId, pre: Sink, post: Sink, r: Result<()>) -> bool {
+    &&& (r is Ok ==> !post.failed@ && post.log@ == pre.log@.push(Ev::Child(id, rt)))
+    &&& (r is Err ==> (post.log@ == pre.log@ || post.log@ == pre.log@.push(Ev::Partial(id, rt))))
     &&& (post.failed@ ==> r is Err)
 }
 /// what every function that writes to the sink owes its caller, in terms of its own events (C10):
